@@ -349,8 +349,9 @@ std::unique_ptr<Joint::State> makeArchiveJoint(const std::string& archivePath, b
 	}
 	st->keep = keep;
 	st->extraKey = [a, vol] {
-		if (vol) return peek::key(static_cast<Archive::VolFile*>(a)->archiveFileReader);
-		return peek::key(static_cast<Archive::ClmFile*>(a)->clmFileReader);
+		bool available = false;
+		if (vol) return peek::volReaderKey(*static_cast<Archive::VolFile*>(a), available);
+		return peek::clmReaderKey(*static_cast<Archive::ClmFile*>(a), available);
 	};
 	st->archiveOp = [a, names, payloads, outDir, vol](int which) -> std::string {
 		switch (which) {
@@ -538,6 +539,7 @@ void runCase(std::size_t i, Ctx& ctx)
 	if (i < kGrid) gridCase(i, ctx);
 	else if (i < kGrid + kJoint) jointCase(i - kGrid, ctx);
 	else equivCase(i - kGrid - kJoint, ctx);
+	if (peek::usedFallback()) ctx.count("binding/fallback-keys");
 }
 
 } // namespace
